@@ -868,6 +868,44 @@ Proof.
     + split; [discriminate|]. intros [_ [H _]]. discriminate.
 Qed.
 
+(* what "complete coded concept" means in that characterisation: every coded
+   concept of an accepted item - its name, the CODE value, the NUM unit and
+   qualifier - has exactly one code value attribute, Code Meaning AND Coding
+   Scheme Designator, whichever of the three attributes carries the code *)
+Theorem item_concepts_complete : forall c a, accept (Some c) (DSet a) = Ok tt ->
+  (forall s, lookup "ConceptNameCodeSequence" a = Some s -> complete_concept s) /\
+  (c = CodeContentItem ->
+   exists s, lookup "ConceptCodeSequence" a = Some s /\ complete_concept s) /\
+  (c = NumContentItem ->
+   exists ms it u, lookup "MeasuredValueSequence" a = Some ms /\ first_item ms = Ok it /\
+     lookup "MeasurementUnitsCodeSequence" it = Some u /\ complete_concept u /\
+     (forall q, lookup "NumericValueQualifierCodeSequence" a = Some q -> complete_concept q)).
+Proof.
+  intros c a H. apply from_dataset_accepts_iff in H. destruct H as [_ [_ [Hn [_ Hv]]]].
+  split; [|split].
+  - intros s Hs. rewrite Hs in Hn. destruct Hn as [n Hn]. eapply code_first_complete; eassumption.
+  - intros ->. cbn [value_codes] in Hv. apply discard_ok in Hv. destruct Hv as [x Hv].
+    unfold get in Hv. destruct (lookup "ConceptCodeSequence" a) as [s|] eqn:E; [|discriminate].
+    cbn [bind] in Hv. exists s. split; [reflexivity|]. eapply code_first_complete; eassumption.
+  - intros ->. cbn [value_codes] in Hv. unfold get in Hv.
+    destruct (lookup "MeasuredValueSequence" a) as [ms|] eqn:E; [|discriminate]. cbn [bind] in Hv.
+    destruct (first_item ms) as [it|] eqn:Ei; [|discriminate]. cbn [bind] in Hv.
+    destruct (lookup "MeasurementUnitsCodeSequence" it) as [u|] eqn:Eu; [|discriminate]. cbn [bind] in Hv.
+    destruct (code_first u) as [n|] eqn:En; [|discriminate]. unfold discard at 1 in Hv. cbn [bind] in Hv.
+    exists ms, it, u.
+    split; [reflexivity|]. split; [exact Ei|]. split; [exact Eu|]. split.
+    + eapply code_first_complete; eassumption.
+    + intros q Hq. rewrite Hq in Hv. apply discard_ok in Hv. destruct Hv as [x Hv].
+      eapply code_first_complete; eassumption.
+Qed.
+
+Corollary item_incomplete_name_rejected : forall c a s,
+  lookup "ConceptNameCodeSequence" a = Some s -> ~ complete_concept s ->
+  accept (Some c) (DSet a) <> Ok tt.
+Proof.
+  intros c a s Hs Hn H. apply item_concepts_complete in H. destruct H as [H _]. auto.
+Qed.
+
 (* the default flags are the SR kind: from_sequence_m MSr is from_sequence2 *)
 Lemma dispatch_sr : forall a, dispatch_m MSr a = check_and_dispatch a.
 Proof.
